@@ -138,6 +138,7 @@ type case = {
   mutable desc : string;
   mutable mss : (string * ms) list;
   mutable rls : bool list;
+  mutable slen : (int * int) list;      (* per script: encoded length, script_size() *)
   mutable keyonly : int option;
   mutable internal : int option;
   mutable impl : lres option;           (* what the implementation returned *)
@@ -232,7 +233,9 @@ let handle_world (c : case) (toks : string list) =
     incr worlds; c.nworlds <- c.nworlds + 1;
     if v = "P" then begin
       incr sat_panic;
-      Printf.printf "PANIC satisfier case=%s kind=%s keymask=%s premask=%s lock=%s seq=%s desc=%s ms=%s\n" c.id c.kind km pm l s c.desc (ms_text c)
+      Printf.printf "PANIC satisfier case=%s kind=%s keymask=%s premask=%s lock=%s seq=%s scriptlen=%s predicted=%s desc=%s ms=%s\n" c.id c.kind km pm l s
+        (String.concat "," (List.map (fun (a, _) -> string_of_int a) c.slen)) (String.concat "," (List.map (fun (_, b) -> string_of_int b) c.slen))
+        c.desc (ms_text c)
     end else begin
       let e_pol = leval a p in
       let e_sat = (v = "1") in
@@ -263,7 +266,7 @@ let () =
                                               rip = bytes_of_hex r; h160 = bytes_of_hex h1 })]
        | "CASE" :: id :: kind :: ctx :: _ ->
          incr n_cases; bump ("kind/" ^ kind);
-         cur := Some { id; kind; tap = (ctx = "ctx=tap"); desc = ""; mss = []; rls = []; keyonly = None; internal = None;
+         cur := Some { id; kind; tap = (ctx = "ctx=tap"); desc = ""; mss = []; rls = []; slen = []; keyonly = None; internal = None;
                        impl = None; impl_txt = ""; target = None; nworlds = 0 }
        | "DESC" :: d :: _ -> upd (fun c -> c.desc <- d)
        | "MS" :: rest ->
@@ -271,6 +274,7 @@ let () =
                (try c.mss <- c.mss @ [(String.concat " " rest, parse_ms rest)]
                 with Parse t -> Printf.printf "DIFF lift case=%s kind=%s reason=ms-parse-%s\n" c.id c.kind t))
        | "RL" :: b :: _ -> upd (fun c -> c.rls <- c.rls @ [b = "1"])
+       | "SCRIPTLEN" :: a :: b :: _ -> upd (fun c -> c.slen <- c.slen @ [(int_of_string a, int_of_string b)])
        | "KEYONLY" :: k :: _ -> upd (fun c -> c.keyonly <- Some (int_of_string k))
        | "INTERNAL" :: k :: _ -> upd (fun c -> c.internal <- Some (int_of_string k))
        | "LIFT" :: rest -> upd (fun c -> handle_lift c rest)
